@@ -266,12 +266,17 @@ def inject_cycles(prog, rng):
             nxt = names[(i + 1) % k]
             pat = ("p", [("n", "CA", "I"), ("n", "CB", "I")], None)
             inner = ("call", nxt, [("op", "-", [("var", "CA"), ("int", 1)]), ("var", "CB")], None)
+            resttail = ("call", nxt, [("op", "-", [("var", "CA"), ("int", 1)])], ("list", [("var", "CB")]))
             body = rng.choice([
                 ("if", ("var", "CA"), inner, ("var", "CB")),
                 ("op", "+", [("var", "CB"), inner]),
                 inner,
+                # the closing call sits in the &rest tail of a call to another inline function, or is itself given a tail
+                ("call", "CYCPASS", [("var", "CA")], inner),
+                resttail,
             ])
             fs.append({"name": n, "kind": "inline", "params": pat, "names": [], "body": body, "rtype": "I"})
+        fs.append({"name": "CYCPASS", "kind": "inline", "params": ("p", [("n", "PA", "I")], ("n", "PT", "L")), "names": [], "body": ("var", "PA"), "rtype": "I"})
         q["funs"] = q["funs"] + fs
         entry = ("call", names[0], [("int", 3), ("int", 4)], None)
         reach = reachable(prog)
@@ -538,6 +543,8 @@ def run(ck):
             ds = [d for d in dialects if srcgen.renderable(q, d) and srcgen.renderable(prog, d)]
             # the twin must compile: take the matrix's verdict for the defect-free program
             ds = [d for d in ds if r["builds"].get((d, True), {}).get("compile") == "OK" and r["builds"].get((d, False), {}).get("compile") == "OK"]
+            # builds that already fall into an open finding of C01/C02 (wrong code for the defect-free twin) are not used
+            ds = [d for d in ds if not r["builds"][(d, True)].get("known") or d == "strict21"]
             if not ds:
                 continue
             if ck.tier == "quick":
@@ -548,6 +555,8 @@ def run(ck):
                 except AssertionError:
                     continue
                 for opt in ((True, False) if ck.tier != "quick" else (rng.random() < 0.5,)):
+                    if r["builds"][(d, opt)].get("known"):
+                        continue        # e.g. strict-cl21 with optimisation (D10): the stock macros themselves miscompile
                     lines.append("compile\t%s\t\t%s" % ("1" if opt else "0", src.encode().hex()))
                     meta.append((ri, kind, c, d, opt, src, ns, tag, q if kind == "inline_cycle" else None))
                     if kind != "unbound":
